@@ -196,6 +196,8 @@ impl http_serve::Entity for SimEntity {
                 }
             }
         }
+        // Half of the streams are of the kind whose own size_hint gives exhaustion away.
+        let hint_policy = st.tape.as_mut().map(|t| t.draw(2)).unwrap_or(0);
         Box::pin(SimStream {
             world: self.world.clone(),
             seed: self.meta.seed,
@@ -212,6 +214,7 @@ impl http_serve::Entity for SimEntity {
             had_pending: false,
             extra_emitted: false,
             extra_more: 0,
+            hint_policy,
         })
     }
 
@@ -252,9 +255,27 @@ pub struct SimStream {
     had_pending: bool,
     extra_emitted: bool,
     extra_more: u32,
+    /// 0 = the default `Stream::size_hint` (0, None); 1 = a stream that, like `stream::iter` or
+    /// `stream::empty`, reports an upper bound of 0 items once it knows it has nothing more.
+    hint_policy: u32,
 }
 
 impl SimStream {
+    /// True when every further poll can only return `None` (possibly after `Pending`).
+    fn exhausted(&self) -> bool {
+        if self.done {
+            return true;
+        }
+        if self.empties_to_emit > 0 {
+            return false;
+        }
+        match self.fault {
+            Some((FaultKind::EarlyEnd, at)) if at == self.pos => true,
+            Some((_, at)) if at == self.pos => false,
+            _ => self.pos == self.len,
+        }
+    }
+
     fn fire(&mut self, st: &mut WorldState, kind: FaultKind) {
         let f = Fired {
             kind,
@@ -283,6 +304,14 @@ impl SimStream {
 
 impl Stream for SimStream {
     type Item = Result<SimData, SimError>;
+
+    fn size_hint(&self) -> (usize, Option<usize>) {
+        if self.hint_policy == 1 && self.exhausted() {
+            (0, Some(0))
+        } else {
+            (0, None)
+        }
+    }
 
     fn poll_next(self: Pin<&mut Self>, cx: &mut Context<'_>) -> Poll<Option<Self::Item>> {
         let this = Pin::into_inner(self);
